@@ -666,6 +666,24 @@ def mapE {α β ε} (f : α → Except ε β) : List α → Except ε (List β)
     | .error e => .error e
     | .ok b => (mapE f as).map (b :: ·)
 
+/-- instructions, data elements, res / align / addr get their item references here; every other
+    node (symbols in particular) passes through unchanged -/
+def assignRef (acc : Defs × List AstNode) (n : AstNode) : Defs × List AstNode :=
+    let (df, out) := acc
+    match n with
+    | .instr src _ => ({ df with instrs := df.instrs ++ [{}] }, out ++ [.instr src (some df.instrs.length)])
+    | .data sz es _ =>
+      let news : List DataDef := es.map fun e =>
+        let size := match sz with
+          | some s => some s
+          | none => staticSize {} e
+        { known := staticallyKnown { queryFunction := asmBuiltinKnown } e, encoding := ⟨0, some (size.getD 0)⟩ }
+      ({ df with datas := df.datas ++ news }, out ++ [.data sz es ((List.range es.length).map (· + df.datas.length))])
+    | .res e _ => ({ df with res := df.res ++ [0] }, out ++ [.res e (some df.res.length)])
+    | .align e _ => ({ df with aligns := df.aligns ++ [0] }, out ++ [.align e (some df.aligns.length)])
+    | .addr e _ => ({ df with addrs := df.addrs ++ [0] }, out ++ [.addr e (some df.addrs.length)])
+    | n => (df, out ++ [n])
+
 /-- `define_remaining`: banks, ruledefs, functions, instructions, data, res/align/addr -/
 def defineRemaining (d : Decls) (defs : Defs) (nodes : List AstNode) : Except String (Defs × List AstNode) := do
   -- bankdefs
@@ -694,23 +712,7 @@ def defineRemaining (d : Decls) (defs : Defs) (nodes : List AstNode) : Except St
         (acc.1 ++ [⟨r, ps, body⟩],
          (padTo acc.2 r none).set r (some { noEmit := true, known := true, value := .fn idx, resolved := true }))
       | _ => acc) ([], defs.symbols)
-  -- instructions, data elements, res / align / addr: refs are assigned here
-  let step (acc : Defs × List AstNode) (n : AstNode) : Defs × List AstNode :=
-    let (df, out) := acc
-    match n with
-    | .instr src _ => ({ df with instrs := df.instrs ++ [{}] }, out ++ [.instr src (some df.instrs.length)])
-    | .data sz es _ =>
-      let news : List DataDef := es.map fun e =>
-        let size := match sz with
-          | some s => some s
-          | none => staticSize {} e
-        { known := staticallyKnown { queryFunction := asmBuiltinKnown } e, encoding := ⟨0, some (size.getD 0)⟩ }
-      ({ df with datas := df.datas ++ news }, out ++ [.data sz es ((List.range es.length).map (· + df.datas.length))])
-    | .res e _ => ({ df with res := df.res ++ [0] }, out ++ [.res e (some df.res.length)])
-    | .align e _ => ({ df with aligns := df.aligns ++ [0] }, out ++ [.align e (some df.aligns.length)])
-    | .addr e _ => ({ df with addrs := df.addrs ++ [0] }, out ++ [.addr e (some df.addrs.length)])
-    | n => (df, out ++ [n])
-  let (defs', nodes') := nodes.foldl step ({ defs with banks := banks, ruledefs := ruledefs, fns := fns, symbols := symbols }, [])
+  let (defs', nodes') := nodes.foldl assignRef ({ defs with banks := banks, ruledefs := ruledefs, fns := fns, symbols := symbols }, [])
   pure (defs', nodes')
 
 /-! ## `match_all` -/
